@@ -90,9 +90,21 @@ func TestVerifC18Proc(t *testing.T) {
 		var sentM pmetric.Metrics
 		var sentP pprofile.Profiles
 		nl, _ := consumer.NewLogs(func(_ context.Context, ld plog.Logs) error { down.calls++; down.same = ld == sentL; return down.err })
-		nt, _ := consumer.NewTraces(func(_ context.Context, td ptrace.Traces) error { down.calls++; down.same = td == sentT; return down.err })
-		nm, _ := consumer.NewMetrics(func(_ context.Context, md pmetric.Metrics) error { down.calls++; down.same = md == sentM; return down.err })
-		np, _ := xconsumer.NewProfiles(func(_ context.Context, pd pprofile.Profiles) error { down.calls++; down.same = pd == sentP; return down.err })
+		nt, _ := consumer.NewTraces(func(_ context.Context, td ptrace.Traces) error {
+			down.calls++
+			down.same = td == sentT
+			return down.err
+		})
+		nm, _ := consumer.NewMetrics(func(_ context.Context, md pmetric.Metrics) error {
+			down.calls++
+			down.same = md == sentM
+			return down.err
+		})
+		np, _ := xconsumer.NewProfiles(func(_ context.Context, pd pprofile.Profiles) error {
+			down.calls++
+			down.same = pd == sentP
+			return down.err
+		})
 		pl, err1 := f.createLogs(bg, set, cfg, nl)
 		pt, err2 := f.createTraces(bg, set, cfg, nt)
 		pm, err3 := f.createMetrics(bg, set, cfg, nm)
@@ -121,10 +133,14 @@ func TestVerifC18Proc(t *testing.T) {
 		// zero-item payloads: 1 = completely empty, 2 = a resource only, 3 = resource>scope only, 4 = resource>scope>
 		// empty leaf container (a metric without data points / a profile without samples; logs, traces: as 3).
 		type step struct {
-			alloc        uint64
-			nx           string
-			sig, shape   int
-			items        int
+			alloc      uint64
+			nx         string
+			sig, shape int
+			items      int
+			// stop >= 0: shut that sharer down first (NO measurement), then feed EVERY live processor;
+			// noMeasure: feed without a new CheckMemLimits - the mode must still be the verdict of the most recent measurement
+			stop      int
+			noMeasure bool
 		}
 		var steps []step
 		if idx < 2 {
@@ -133,7 +149,7 @@ func TestVerifC18Proc(t *testing.T) {
 				for shape := 0; shape <= 4; shape++ {
 					for _, a := range []uint64{soft - 1, soft} {
 						for _, nx := range []string{"ok", "err", "perm"} {
-							st := step{alloc: a, nx: nx, sig: sig, shape: shape}
+							st := step{alloc: a, nx: nx, sig: sig, shape: shape, stop: -1}
 							if shape == 0 {
 								st.items = 2
 							}
@@ -142,9 +158,22 @@ func TestVerifC18Proc(t *testing.T) {
 					}
 				}
 			}
+			// sharers leave one by one without a measurement in between: first while refusing (case 0) / accepting (case 1)
+			leaveAt := []uint64{soft, soft - 1}[idx]
+			steps = append(steps, step{alloc: leaveAt, nx: "ok", sig: 0, items: 1, stop: -1})
+			for k := 0; k < 3; k++ {
+				steps = append(steps, step{nx: "ok", sig: k + 1, items: 1, stop: k, noMeasure: true})
+			}
+			steps = append(steps, step{alloc: soft + soft - 1 - leaveAt, nx: "ok", sig: 3, items: 1, stop: -1}, step{nx: "err", sig: 3, items: 1, stop: -1, noMeasure: true})
 		} else {
 			for i, n := 0, 4+r.IntN(12); i < n; i++ {
-				st := step{alloc: []uint64{0, soft - 1, soft, soft + 1, soft * 2}[r.IntN(5)], nx: []string{"ok", "ok", "err", "perm"}[r.IntN(4)], sig: r.IntN(4)}
+				st := step{alloc: []uint64{0, soft - 1, soft, soft + 1, soft * 2}[r.IntN(5)], nx: []string{"ok", "ok", "err", "perm"}[r.IntN(4)], sig: r.IntN(4), stop: -1}
+				switch r.IntN(8) {
+				case 0:
+					st.stop, st.noMeasure = r.IntN(4), true
+				case 1:
+					st.noMeasure = true
+				}
 				if r.IntN(3) == 0 {
 					st.shape = 1 + r.IntN(4)
 				} else {
@@ -153,15 +182,13 @@ func TestVerifC18Proc(t *testing.T) {
 				steps = append(steps, st)
 			}
 		}
-		n := len(steps)
-		refusals, zeroFwd := 0, 0
-		for i, st := range steps {
-			alloc = st.alloc
-			ml.CheckMemLimits()
-			refusing := ml.MustRefuse()
-			if refusing != (alloc >= soft) {
-				out.Linef("viol sig=C18/check/refuse-not-iff-latest-above-soft alloc=%d soft=%d", alloc, soft)
+		live := [4]bool{true, true, true, true}
+		refusals, zeroFwd, consumes := 0, 0, 0
+		consumeOne := func(i int, st step, refusing bool) {
+			for !live[st.sig] { // a processor that has shut down is not fed
+				st.sig = (st.sig + 1) % 4
 			}
+			consumes++
 			nx := st.nx
 			switch nx {
 			case "ok":
@@ -283,8 +310,60 @@ func TestVerifC18Proc(t *testing.T) {
 				}
 			}
 		}
+		nLive, lastVerdict, sharedChecks := 4, false, 0
+		for i, st := range steps {
+			if st.stop >= 0 && live[st.stop] && nLive > 1 {
+				// one sharer shuts down; nothing is measured
+				k := st.stop
+				out.Linef("op stopsharer %d", k)
+				func() {
+					defer func() {
+						if p := recover(); p != nil {
+							out.Linef("viol sig=C18/processor/panic-in-shutdown k=%d %v", k, p)
+						}
+					}()
+					err := comps[k].Shutdown(bg)
+					out.Linef("obs stopped err=%d", vB(err != nil))
+				}()
+				live[k] = false
+				nLive--
+			}
+			if !st.noMeasure {
+				alloc = st.alloc
+				ml.CheckMemLimits()
+				lastVerdict = alloc >= soft
+				if ml.MustRefuse() != lastVerdict {
+					out.Linef("viol sig=C18/check/refuse-not-iff-latest-above-soft alloc=%d soft=%d", alloc, soft)
+				}
+				consumeOne(i, st, lastVerdict)
+				continue
+			}
+			// no measurement in this step: the mode is still the verdict of the most recent measurement
+			what := "feed-without-a-new-measurement"
+			if st.stop >= 0 {
+				what = "shutdown-of-a-sharer"
+			}
+			if ml.MustRefuse() != lastVerdict {
+				out.Linef("viol sig=C18/shared/refusal-changed-without-a-measurement/%s verdict=%v now=%v live=%d", what, lastVerdict, ml.MustRefuse(), nLive)
+			}
+			sharedChecks++
+			if st.stop >= 0 {
+				for sig := 0; sig < 4; sig++ { // every live processor
+					if live[sig] {
+						st2 := st
+						st2.sig = sig
+						consumeOne(i, st2, lastVerdict)
+					}
+				}
+			} else {
+				consumeOne(i, st, lastVerdict)
+			}
+		}
 		// shut down three of the four sharers: the limiter must still be running (ref count 1), then the last one
 		for k, c := range comps {
+			if !live[k] {
+				continue
+			}
 			func() {
 				defer func() {
 					if p := recover(); p != nil {
@@ -307,6 +386,8 @@ func TestVerifC18Proc(t *testing.T) {
 			}
 		}()
 		_ = tel.Shutdown(bg)
+		n := consumes
+		out.Linef("stat steps_without_measurement %d", sharedChecks)
 		if refusals > 0 && refusals < n {
 			out.Linef("nt")
 		}
